@@ -58,7 +58,19 @@ func genC06(r *core.Rand, p *core.Plan) {
 		n = r.Range(15, 50)
 	}
 	for i := 0; i < n; i++ {
-		switch r.Weighted([]int{34, 10, 10, 8, 8, 6, 8, 6, 10}) {
+		switch r.Weighted([]int{34, 10, 10, 8, 8, 6, 8, 6, 10, 6}) {
+		case 9:
+			// the chain moves while the wallet is off: the restarted wallet
+			// must judge confirmations against the chain it finds
+			p.Ops = append(p.Ops, core.Op{K: "sync"}, core.Op{K: "stop"})
+			if r.Chance(2, 3) {
+				d := r.Range(1, 2)
+				p.Ops = append(p.Ops, core.Op{K: "reorg", A: []int64{int64(d), int64(d + r.Range(0, 1)), int64(r.Range(0, 100)), int64(r.Uint64() >> 1)}})
+			} else {
+				p.Ops = append(p.Ops, core.Op{K: "mine", A: []int64{int64(r.Range(1, 2)), int64(r.Range(40, 100)), -1, 600, int64(r.Uint64() >> 1)}})
+			}
+			p.Ops = append(p.Ops, core.Op{K: "start"}, core.Op{K: "sync"})
+			p.Ops = append(p.Ops, genSend6(r, 0))
 		case 0:
 			p.Ops = append(p.Ops, core.Op{K: "sync"})
 			p.Ops = append(p.Ops, genSend6(r, 0))
